@@ -478,6 +478,24 @@ func runKillEngine(e *Env, c04, c05 bool) {
 			}
 		}
 	}
+	if c05 && !c04 {
+		// the SOURCE changes between the runs: the biggest file of the tree (a
+		// regular file, or a symbolic link to one that lives outside the tree)
+		// is rewritten in place with other bytes of the same length and a new
+		// modification time; whatever the next run finds marked must hold the
+		// bytes of the source as it is now
+		for _, w := range wls {
+			if w.GapOnly {
+				continue
+			}
+			for _, pre := range []string{"rewrite-link-target", "rewrite-source"} {
+				for k := 2; k <= e.Pick(6, 12); k += 2 {
+					add(w.Name, killStep{Site: "recv.chunk.afterMark", K: k + 2, Action: "delaykill", Slow: 45},
+						killStep{Site: "recv.chunk.afterWrite", K: k, Action: "kill", Pre: pre})
+				}
+			}
+		}
+	}
 	for _, w := range wls {
 		if !w.GapOnly {
 			continue
@@ -514,6 +532,35 @@ func runKillEngine(e *Env, c04, c05 bool) {
 		outDir := filepath.Join(base, "out")
 		e.R.Eval()
 		expected := vk.ExpectedDigest(w.Tree, "srcroot/")
+		// chains that rewrite the source work on a private copy of it
+		rwRel, rwFile := "", ""
+		for _, st := range c.Steps {
+			if !strings.HasPrefix(st.Pre, "rewrite-") {
+				continue
+			}
+			src = filepath.Join(base, "src", "srcroot")
+			if err := w.Tree.Materialize(src); err != nil {
+				e.R.Inconcl(c.ID + ": materialize: " + err.Error())
+				return
+			}
+			var big int64 = -1
+			for _, en := range w.Tree.Entries {
+				if !en.Dir && en.Link == "" && en.Size > big {
+					big, rwRel = en.Size, en.Rel
+				}
+			}
+			rwFile = filepath.Join(src, filepath.FromSlash(rwRel))
+			if st.Pre == "rewrite-link-target" {
+				tgt := filepath.Join(base, "linktargets", "t.bin")
+				_ = os.MkdirAll(filepath.Dir(tgt), 0755)
+				if os.Rename(rwFile, tgt) != nil || os.Symlink(tgt, rwFile) != nil {
+					e.R.Inconcl(c.ID + ": cannot turn " + rwRel + " into a link")
+					return
+				}
+				rwFile = tgt
+			}
+			break
+		}
 		var lastSnap []sidecarSnapshot
 		lastSnapCS := w.CS
 		died := 0
@@ -536,7 +583,25 @@ func runKillEngine(e *Env, c04, c05 bool) {
 			if st.CS > 0 {
 				ws.CS = st.CS
 			}
-			if st.Pre != "" {
+			if strings.HasPrefix(st.Pre, "rewrite-") {
+				fi, err := os.Stat(rwFile)
+				if err != nil {
+					e.R.Inconcl(c.ID + ": " + err.Error())
+					return
+				}
+				buf := make([]byte, fi.Size())
+				vk.FillContent(w.Tree.Seed^0x5eed0fa11, "rewritten/"+rwRel, 0, buf)
+				f, err := os.OpenFile(rwFile, os.O_WRONLY, 0)
+				if err == nil {
+					_, err = f.WriteAt(buf, 0)
+					_ = f.Close()
+				}
+				if err != nil || os.Chtimes(rwFile, fi.ModTime().Add(7*time.Second), fi.ModTime().Add(7*time.Second)) != nil {
+					e.R.Inconcl(c.ID + ": rewrite of the source failed")
+					return
+				}
+				e.R.Count("source_rewritten_between_runs:" + st.Pre)
+			} else if st.Pre != "" {
 				mm, _ := manifest.ScanPaths([]string{src})
 				n := 0
 				for _, sn := range lastSnap {
@@ -677,7 +742,14 @@ func runKillEngine(e *Env, c04, c05 bool) {
 							nm++
 						}
 					}
-					v := checkSidecarAgainstSource(sc, filepath.Join(outDir, filepath.FromSlash(it.RelPath)), w.Tree, strings.TrimPrefix(it.RelPath, "srcroot/"), nil)
+					v := ""
+					if strings.HasPrefix(st.Pre, "rewrite-") && it.RelPath == "srcroot/"+rwRel {
+						// the source as it is now
+						v = checkSidecarAgainstFile(sc, filepath.Join(outDir, filepath.FromSlash(it.RelPath)), rwFile, rwRel)
+						e.R.Count("sidecars_compared_with_the_rewritten_source")
+					} else {
+						v = checkSidecarAgainstSource(sc, filepath.Join(outDir, filepath.FromSlash(it.RelPath)), w.Tree, strings.TrimPrefix(it.RelPath, "srcroot/"), nil)
+					}
 					mu.Lock()
 					marked += nm
 					compared++
@@ -808,6 +880,9 @@ func runKillEngine(e *Env, c04, c05 bool) {
 		runC05FlushTorture(e)
 		e.R.Require(e.R.Counter("sidecars_of_begun_files_compared_after_data_removal") >= e.Pick(2, 6), fmt.Sprintf("only %d sidecars compared after the data file was removed under them", e.R.Counter("sidecars_of_begun_files_compared_after_data_removal")))
 		e.R.Require(compared >= e.Pick(10, 100), fmt.Sprintf("only %d loadable sidecars compared after kills", compared))
+		if !c04 {
+			e.R.Require(e.R.Counter("sidecars_compared_with_the_rewritten_source") >= 1, "no sidecar of a file whose source was rewritten between the runs was compared")
+		}
 	}
 	e.R.Require(e.R.Counter("gap_bitmaps_persisted_by_stalled_runs") >= e.Pick(6, 20), fmt.Sprintf("only %d stalled runs left a bitmap with a gap", e.R.Counter("gap_bitmaps_persisted_by_stalled_runs")))
 	if c04 {
